@@ -503,9 +503,30 @@ inductive OpenMode where
                              -- any name, relative to the working directory
 deriving Repr, Inhabited
 
+/-- the OS walks a name element by element: `x/..` needs `x` to be an existing directory (unlike
+    the lexical `Clean`).  `cur` = where the walk stands, below the work directory. -/
+def osWalkOK (t : Tree) : List Str → List Str → Bool
+  | _, [] => true
+  | cur, seg :: rest =>
+    if seg = [] ∨ seg = dot then osWalkOK t cur rest
+    else if seg = dotdot then
+      (match look t cur with
+       | .dir _ => osWalkOK t cur.dropLast rest
+       | _ => false)
+    else osWalkOK t (cur ++ [seg]) rest
+
+/-- every `..` of the name is taken from an existing directory -/
+def osDotDotOK (t : Tree) (cwd : List Str) (name : Str) : Bool :=
+  if isRooted name then
+    match segsOf name with
+    | w :: rest => if w = workName then osWalkOK t [] rest else true
+    | [] => true
+  else osWalkOK t cwd (splitOn '/' name)
+
 /-- `os.Open(name)`: the empty name and a regular file followed by a slash are errors -/
 def osOpen (t : Tree) (cwd : List Str) (name : Str) : Look :=
   if name = [] then .notExist
+  else if !osDotDotOK t cwd name then .notExist
   else match dirRootSegs cwd name with
     | none => .notExist
     | some segs =>
@@ -575,6 +596,38 @@ def deriveRoots (cwd : List Str) : List Str → Option (List Str)
     | some d => deriveRoots d rest
     | none => none
 
+/-! ### when a configuration value is read
+
+An application can change its environment between four moments: `echo.New()`, the registration
+of a route, the first request, any later request.  Two things matter for static serving: the
+process working directory and the value of `Echo.Filesystem`. -/
+
+/-- the value of something at the four moments -/
+structure Times (α : Type) where
+  atNew : α
+  atRegister : α
+  atFirstRequest : α
+  atRequest : α
+deriving Repr
+
+/-- `Echo.Static` / `Group.Static` / `MustSubFS` on the DEFAULT file system: the working directory is
+    read once, by `echo.New()` (`newDefaultFS`: `prefix = os.Getwd()`); every later root is joined to
+    that prefix when the route is registered and the result is an absolute directory. -/
+def staticRouteRoot (cwd : Times (List Str)) (roots : List Str) : Option (List Str) :=
+  deriveRoots cwd.atNew roots
+
+/-- the Static middleware with the default file system is `http.Dir(Root)`: a relative `Root` is
+    resolved by the OS on every `Open`, i.e. against the working directory of that moment; so is a
+    relative name given to `Echo.File` on the default file system (`os.Open`) -/
+def openTimeRoot (cwd : Times (List Str)) (root : Str) : Option (List Str) :=
+  dirRootSegs cwd.atRequest root
+
+/-- a Static / StaticFS route (Echo or Group) keeps the file system it was given — for
+    `Static` the sub file system of `Echo.Filesystem` taken at registration; a `File` route and
+    `Context.File` read `Echo.Filesystem` when the request is served -/
+def staticRouteFS {α : Type} (fs : Times α) : α := fs.atRegister
+def fileRouteFS {α : Type} (fs : Times α) : α := fs.atRequest
+
 /-- `quoteEscaper.Replace(name)`: backslash and double quote get a backslash in front -/
 def quoteEscape : Str → Str
   | [] => []
@@ -639,6 +692,7 @@ inductive RootSpec where
   | given (rs : List Str)
   | sub (root : Str)
   | derived (cwd : List Str) (roots : List Str)   -- default file system narrowed by these roots in turn
+  | derivedT (cwd : Times (List Str)) (roots : List Str)  -- the same, the working directory at the four moments
 
 inductive Op where
   | mw (rec : Bool) (cfg : MwCfg) (t : Tree) (rootSegs : List Str) (cPath star urlPath : Str) (next : Next)
@@ -696,7 +750,11 @@ def pOp : P Op := do
     let spec ← (match mode with
       | 0 => pure (RootSpec.given rs)
       | 1 => do let r ← str; pure (RootSpec.sub r)
-      | _ => do let cwd ← list str; let roots ← list str; pure (RootSpec.derived cwd roots))
+      | 2 => do let cwd ← list str; let roots ← list str; pure (RootSpec.derived cwd roots)
+      | _ => do
+        let a ← list str; let b ← list str; let c ← list str; let d ← list str
+        let roots ← list str
+        pure (RootSpec.derivedT ⟨a, b, c, d⟩ roots))
     let st ← str
     let up ← str
     pure (.dirF rec_ t spec f st up)
@@ -726,6 +784,10 @@ def runLine (line : String) : String :=
     | none => "config-panic"
   | some (.dirF r t (.derived cwd roots) f st up) =>
     match deriveRoots cwd roots with
+    | some rs => encResult r (staticDirF f t rs st up)
+    | none => "root-outside-work-directory"
+  | some (.dirF r t (.derivedT cwd roots) f st up) =>
+    match staticRouteRoot cwd roots with
     | some rs => encResult r (staticDirF f t rs st up)
     | none => "root-outside-work-directory"
   | some (.fileF r t rs f m n none) => encResult r (fsFileF f m t rs n)
